@@ -77,7 +77,8 @@ def cases(draw, tier):
                     dt = math.copysign(1.0, dt)
     else:
         R0 = draw(st.sampled_from([1.0, 10.0, 239.8081535]))
-        dz = TWO_PI * R0 / nz
+        # the z domain need not be exactly one toroidal turn long (zMax is a free constant)
+        dz = TWO_PI * R0 / nz * draw(st.sampled_from([1.0, 1.0, 0.5, 1.7]))
         vs = sorted(set(draw(st.lists(st.floats(-8, 8), min_size=nv, max_size=nv))))
         dt = draw(st.sampled_from([0.0625, 0.5, 2.0, 8.0, 32.0])) * draw(st.sampled_from([-1.0, 1.0]))
         iota = draw(st.one_of(st.sampled_from([0.0, 0.8, -0.8]), st.floats(-2, 2)))
